@@ -5,6 +5,7 @@ mod engine;
 mod gen;
 mod model;
 mod props;
+mod refimpl;
 
 use engine::{Run, Tier};
 
